@@ -19,8 +19,8 @@ import warnings
 
 from traits.api import (Any, Callable, CInt, Constant, DelegatesTo, Dict,
                         Either, Enum, Event, Float, HasTraits, Instance, Int,
-                        List, Map, Property, Range, ReadOnly, Set, Str,
-                        TraitError, Tuple, Union)
+                        List, Map, Property, PrototypedFrom, Range, ReadOnly,
+                        Set, Str, TraitError, Tuple, Union)
 
 VARIANT = "asan"
 LEVEL = "fault_enumeration"
@@ -117,6 +117,18 @@ def _pget_raises(obj):
 class Par(HasTraits):
     t = Int
     pre_t = Int
+
+
+class BadProto(HasTraits):
+    v = Any
+
+    def _v_default(self):
+        raise RuntimeError("prototype default fails")
+
+
+class Deferring(HasTraits):
+    proto = Instance(BadProto, ())
+    v = PrototypedFrom("proto")
 
 
 class R(HasTraits):
@@ -326,6 +338,26 @@ def cells():
             pass
     cell("del-default-raises-with-notifier", del_with_failing_default,
          fails=True)
+
+    def quiet_set_with_listener(o, S):
+        x = O()
+        x.on_trait_change(lambda: None, "a")
+        x.on_trait_change(lambda: None)
+        x.trait_setq(a=S)
+        x.trait_set(trait_change_notify=False, a=None)
+    cell("quiet-set-with-listener", quiet_set_with_listener)
+
+    def prototype_default_raises(o, S):
+        # first local assignment of a prototyped attribute that has a
+        # listener, while reading the prototype's value (the "old" value)
+        # fails
+        d = Deferring()
+        d.on_trait_change(lambda: None, "v")
+        try:
+            d.v = S
+        except RuntimeError:
+            pass
+    cell("prototyped-old-value-raises", prototype_default_raises, fails=True)
 
     def del_dyn(o, S):
         x = O()
